@@ -80,6 +80,14 @@ def do(e, op):
             e['samples'] = compute_cyclepoints(sig, fs, fr, **(e['fek'] or {}))
         return e['samples']
     k = op[0]
+    if k == 'refill':
+        # not a library call: the CALLER overwrites its signal buffer in place with the next stretch of data (here: the same
+        # samples reversed) and drops the tables it had computed from the old contents
+        if e['sig'].flags.writeable:
+            e['sig'][...] = np.array(e['sig'][::-1], copy=True)
+            for key in ('df', 'shape', 'samples', 'sub', 'cps', 'cps0'):
+                e.pop(key, None)
+        return None
     try:
         if k == 'features':
             return compute_features(sig, fs, fr, center_extrema=e['center'], burst_method=e['method'], burst_kwargs=e['bk'],
@@ -200,6 +208,12 @@ def run_sequence(sh, case, driver='sequence'):
     if not vs:
         for i, op in enumerate(ops):
             pristine = env_of(dict(case, readonly=False))
+            if op[0] == 'refill':
+                continue
+            if not case.get('readonly'):
+                for prev in ops[:i]:
+                    if prev[0] == 'refill':
+                        do(pristine, prev)          # the caller's own edits of its buffer are part of the arguments' values
             try:
                 with quiet():
                     ref = ('ok', do(pristine, op))
@@ -234,7 +248,9 @@ def gen_ops(rng, method, n, nsamp, fs):
     for _ in range(n):
         r = rng.random()
         xlim = None if rng.random() < 0.4 else (round(float(rng.uniform(0, dur / 3)) * 8) / 8, round(float(rng.uniform(dur / 2, dur)) * 8) / 8)
-        if r < 0.22:
+        if r < 0.04:
+            ops.append(('refill',))
+        elif r < 0.22:
             ops.append(('features',))
         elif r < 0.27:
             ops.append(('features_other_center',))
